@@ -219,10 +219,24 @@ fn json_bytes(v: &Value) -> Vec<u8> {
 
 // ------------------------------------------------------------------------------------------------ message types
 
-type DecFn = fn(&[u8]) -> Result<Box<dyn std::fmt::Debug>, String>;
+/// a decoded value: can be logged, and re-encoded (hashing / re-gossip call `build()`) to something that reads back
+trait Decoded {
+    fn debug(&self) -> String;
+    /// `decode(encode(self))` rendered; `Err` if it does not decode
+    fn reencoded_debug(&self) -> Result<String, String>;
+}
+impl<T: ProtoFmt + std::fmt::Debug> Decoded for T {
+    fn debug(&self) -> String { format!("{self:?}") }
+    fn reencoded_debug(&self) -> Result<String, String> {
+        let b = zksync_protobuf::encode(self);
+        zksync_protobuf::decode::<T>(&b).map(|v| format!("{v:?}")).map_err(|e| format!("{e:#}"))
+    }
+}
 
-fn d<T: ProtoFmt + std::fmt::Debug + 'static>(b: &[u8]) -> Result<Box<dyn std::fmt::Debug>, String> {
-    zksync_protobuf::decode::<T>(b).map(|v| Box::new(v) as Box<dyn std::fmt::Debug>).map_err(|e| format!("{e:#}"))
+type DecFn = fn(&[u8]) -> Result<Box<dyn Decoded>, String>;
+
+fn d<T: ProtoFmt + std::fmt::Debug + 'static>(b: &[u8]) -> Result<Box<dyn Decoded>, String> {
+    zksync_protobuf::decode::<T>(b).map(|v| Box::new(v) as Box<dyn Decoded>).map_err(|e| format!("{e:#}"))
 }
 
 /// (name on the op lines, protobuf full name, decoder of a public type — `None`: decoded through `entry::decode`)
@@ -287,7 +301,7 @@ fn types() -> Vec<(&'static str, &'static str, Option<DecFn>)> {
 }
 
 /// Decodes `bytes` as `ty` with the real code: `Ok(value for Debug)` / `Err(error chain)`.
-fn decode_as(ty: &str, dec: Option<DecFn>, bytes: &[u8]) -> Result<Option<Box<dyn std::fmt::Debug>>, String> {
+fn decode_as(ty: &str, dec: Option<DecFn>, bytes: &[u8]) -> Result<Option<Box<dyn Decoded>>, String> {
     match dec {
         Some(f) => f(bytes).map(Some),
         None => entry::decode(ty, bytes).unwrap_or_else(|| Err(format!("unknown type {ty}"))).map(|_| None),
@@ -1294,13 +1308,24 @@ impl C10 {
             Ok(v) => {
                 // S: whatever was decoded can be logged (Debug) without a panic
                 if let Some(v) = v {
-                    if let Err(site) = catch(|| format!("{v:?}").len()) {
-                        let msg = site.rsplit(": ").next().unwrap_or("").to_string();
-                        if msg.contains("duration") {
-                            // a decoded Timestamp that cannot be Debug-formatted
-                            out.oracle_fail(&format!("debug:time::Utc: {msg}"), "Debug of a decoded Timestamp panicked", op.clone());
-                        } else {
-                            out.oracle_fail(&format!("debug:{ty}: {msg}"), "Debug formatting of a decoded value panicked", op.clone());
+                    match catch(|| v.debug()) {
+                        Err(site) => {
+                            let msg = site.rsplit(": ").next().unwrap_or("").to_string();
+                            if msg.contains("duration") {
+                                out.oracle_fail(&format!("debug:time::Utc: {msg}"), "Debug of a decoded Timestamp panicked", op.clone());
+                            } else {
+                                out.oracle_fail(&format!("debug:{ty}: {msg}"), "Debug formatting of a decoded value panicked", op.clone());
+                            }
+                        }
+                        Ok(shown) => {
+                            // S: what was accepted re-encodes (build()) without a panic and reads back as the same value
+                            match catch(|| v.reencoded_debug()) {
+                                Err(site) => out.oracle_fail(&format!("build:{ty}: {}", site.rsplit(": ").next().unwrap_or("")), "build()/encode of a decoded value panicked", op.clone()),
+                                Ok(Err(e)) => out.oracle_fail(&format!("roundtrip:{ty}"), &format!("a decoded value does not decode after re-encoding: {e}"), op.clone()),
+                                Ok(Ok(again)) => if again != shown {
+                                    out.oracle_fail(&format!("roundtrip:{ty}"), "a decoded value re-encodes to a different value", op.clone());
+                                },
+                            }
                         }
                     }
                 }
